@@ -67,6 +67,7 @@ type BodyObs struct {
 type Script struct {
 	Prog    Program
 	AbortAt func(sec, op, attempt int) bool // body returns ErrCriticalSectionAborted before op (op == len(ops): after the last one); nil = never
+	ValueOf func(o Op) (tla.Value, bool)    // value written by a "w" op (ok=false or nil func: the string tag o.V)
 	Attempt int                             // number of body executions started so far
 	Obs     []BodyObs
 	Panics  []string
@@ -139,6 +140,11 @@ func (s *Script) body(sec int) func(iface distsys.ArchetypeInterface) error {
 				last = v
 			case "w", "f":
 				v := tla.MakeString(o.V)
+				if s.ValueOf != nil {
+					if x, ok := s.ValueOf(o); ok {
+						v = x
+					}
+				}
 				if o.K == "f" {
 					v = last
 				}
